@@ -538,7 +538,7 @@ func Run(run *ev.Run) {
 					run.Inconclusive("cannot start loopback server: " + err.Error())
 					continue
 				}
-				for _, r := range j.reqs {
+				for ri, r := range j.reqs {
 					e := ref.Decide(j.t.Roots, r.Req)
 					rm := e.RestliMethod
 					if len(e.Alternatives) > 0 {
@@ -568,6 +568,26 @@ func Run(run *ev.Run) {
 							run.Sample(map[string]any{"generation": g, "mounting": j.m.name, "filters": j.filters, "request": r.String(), "expected": e.String(), "observed_status": o.Status, "observed_invocations": invDesc(o.Inv), "observed_filters": o.Filters})
 						}
 						sampleMu.Unlock()
+					}
+					// a prefixed server names its resources below the prefix only: the same request outside the prefix
+					// names no registered resource
+					if j.m.pfx != "" && !j.m.mux && e.Routed && !e.Unspecified && ri%3 == 0 {
+						for _, alt := range []string{"", "/api", "/api/v1x", "/v1"} {
+							m2 := j.m
+							m2.prefix = alt
+							o2 := in.send(m2, r, rm)
+							run.Eval(1)
+							if o2.Err != "" {
+								continue
+							}
+							if o2.Status != 404 || len(o2.Inv) > 0 || len(o2.Filters) > 0 {
+								run.Violation(fmt.Sprintf("%s/%s/outside-prefix-request-routed/%s", g, j.m.name, map[bool]string{true: "no-prefix", false: "other-prefix"}[alt == ""]),
+									map[string]any{"generation": g, "mounting": j.m.name, "server_prefix": j.m.pfx, "request_prefix": alt, "filters": j.filters, "tree": treeDesc(j.t), "request": r.String(),
+										"observed_status": o2.Status, "observed_body": trunc(o2.Body), "observed_invocations": invDesc(o2.Inv), "observed_filters": o2.Filters})
+							} else {
+								run.Count("outside_prefix_requests", 1)
+							}
+						}
 					}
 				}
 				in.srv.Close()
